@@ -37,6 +37,20 @@ CLAIMED = {
         note=TB + "the order of AST children vs source order is the parser's part (AST correspondence).",
         technique="Lean 4 theorems with a tracing converter (order and multiplicity of converter operations) + correspondence + tracer oracle",
         design="7/C04"),
+    "C06": dict(
+        text="The typing discipline is an executable checker on elaborated ASTs (Model/Typed.lean), run on every AST the real parser returns. Theorems (Props/C06.lean): every typed AST "
+             "is translated by the bash emitter model without error or panic (the converters' second line of defence never fires on typed input, so acceptance is the parser's, "
+             "which does not see the target); the converse for ill-typed operators; operator tables. Parser verdicts: exhaustive typed-position table x contexts, both targets.",
+        note=TB + "that the parser accepts exactly the typed programs is sampled (table + generators), not proved; the Batch emitter's totality is not yet a theorem.",
+        technique="Lean 4 emit-totality theorem over a typing checker that is also run on every parser output + exhaustive typed-position table",
+        design="7/C06"),
+    "C07": dict(
+        text="Theorems (Props/C07.lean) about the scope part of the parser model: a registered definition is found and disturbs no other name; the context of a function body holds "
+             "only globals; accepted parameter lists have distinct names; the scope-stack queries behind break/continue/return. Program verdicts: scope-skeleton oracle; placement "
+             "rules are also checked on every parser output (MISPLACED tag).",
+        note=TB + "block-local scoping is by the type of the model function (blocks return statements only); the Go clone() sites are covered by correspondence.",
+        technique="Lean 4 theorems on the parser model's context operations + scope-skeleton generator with known verdicts",
+        design="7/C07"),
     "C08": dict(
         text="Theorems (Props/C08.lean): for every literal without $ and backquote the text bash reads between the quotes the converter writes is the literal itself and the quote ends "
              "where it was closed (model of bash's double-quote rules); escaping distributes over concatenation; through the assignment and printf templates. The negative result "
@@ -44,6 +58,20 @@ CLAIMED = {
         note=TB + "the double-quote model follows Bash manual 3.1.2.3; expansion results not being re-scanned is bash semantics (oracle).",
         technique="Lean 4 round-trip theorem escape/double-quote scanner + correspondence + execution oracle",
         design="7/C08"),
+    "C09": dict(
+        text="Theorems (Props/C09.lean) about the call-graph part of the parser model: the merge of an imported graph keeps every own edge and takes every imported edge; the collection "
+             "of used functions contains everything reachable from top-level code; removal keeps every reachable function definition and drops nothing but function definitions, "
+             "order preserved. Linking (aliases, prefixes, visibility) and defined-before-use in the scripts: import-graph oracle.",
+        note=TB + "that every call site records its edge is part of the AST/usedFuncs correspondence, not a theorem.",
+        technique="Lean 4 theorems on merge/reachability/removal of the parser model + import-graph world oracle",
+        design="7/C09"),
+    "C10": dict(
+        text="The property does not hold on the pinned tree in general (known finding reserved-identifiers-not-rejected). Theorems (Props/C10.lean) state what does hold and the exact "
+             "boundary: the mangling f<k>_<name> is injective in (k, name); every compiler-owned name starts with '_', so identifiers not starting with '_' never hit one; "
+             "witness theorems for the two collision classes. Behaviour under renaming: renaming oracle with a reserved-name pool.",
+        note=TB + "partial: the theorems cover the bash naming scheme; Batch (case-insensitive variables) is covered by the oracle and the known finding only.",
+        technique="Lean 4 injectivity / disjointness theorems on the naming scheme + renaming oracle",
+        design="7/C10"),
     "C11": dict(
         text="Lean theorems about Model/Lexer.lean (see Props/C11.lean; listed in the evidence), the regenerated "
              "lexer tables, and a token-level correspondence between the model and lexer.Tokenize on every run; "
@@ -69,6 +97,13 @@ CLAIMED = {
         note=TB + "purity itself is argued from the audited facts (DESIGN.md); the theorem pins the facts.",
         technique="regenerated source facts pinned by Lean theorems + differential runs (processes, locations, histories)",
         design="7/C14"),
+    "C15": dict(
+        text="Std.Lib is a loop-for-loop Lean rendering of std/strings.tsh, Std.Go a declarative specification of Go's strings functions. Theorems (Props/C15.lean): Lib = Go for all "
+             "arguments for HasPrefix, HasSuffix, Index, Contains, Join, Repeat (count>=0), CutPrefix, CutSuffix, TrimPrefix, TrimSuffix, Cut. Count, Split, Replace(All), Trim* are "
+             "decided by the exhaustive small-scope four-way comparison (rendering, specification, compiled+executed library, Go's package) only.",
+        note=TB + "the rendering is tied to the library and the specification to Go's package by running all four on the same tuples in every run.",
+        technique="Lean 4 equivalence proofs rendering = specification + four-way differential on exhaustive small tuples",
+        design="7/C15"),
     "C16": dict(
         text="Theorems (Props/C16.lean): for every well-formed AST the bash script follows the block grammar (non-empty bodies, own closers), nesting depth returns to 0, bodies "
              "start with a command, an empty block is the no-op. bash -n and the Batch structure (labels, parentheses, helpers, jumps): structural oracles on every emitted script.",
@@ -97,11 +132,6 @@ CLAIMED = {
 
 PENDING = {
     "C05": "check built and run (cmd.exe model calibrated on the suite, Lean Batch emitter model in correspondence), but no Lean theorem is stated yet for the Batch target; not claimed at proof level until Props/C05.lean has theorems",
-    "C06": "check built and run (typed-position table, both targets, model correspondence); Lean theorems about the type rules pending",
-    "C07": "check built and run (scope skeleton generator, model correspondence); Lean theorems about scope rules pending",
-    "C09": "check built and run (import-graph world, defined-before-use oracle); Lean theorems about the call-graph merge and removal pending",
-    "C10": "check built and run (renaming oracle with reserved-name pool); Lean theorems pending",
-    "C15": "check built and run (Go strings package as oracle on executions); a Lean model of std/strings.tsh is pending",
 }
 
 NOT_APPLICABLE_REASON = "check not built yet in this round (model and tie pending); see DESIGN.md section 7"
